@@ -243,7 +243,7 @@ func main() {
 	shard := flag.Int("shard", 0, "shard index")
 	nshards := flag.Int("nshards", 1, "number of shards")
 	out := flag.String("out", "", "output directory for shard results")
-	replays := flag.String("replays", "/verif/replays", "directory for replay files")
+	replays := flag.String("replays", "replays", "directory for replay files")
 	replay := flag.String("replay", "", "replay file to re-execute")
 	oneCase := flag.Int("case", -1, "run only this case index (with rendering)")
 	from := flag.Int("from", 0, "skip cases below this index")
